@@ -1324,6 +1324,20 @@ class Interp:
                 n_ = v.size if v.size is not None else S(v.name + ".size", integer=True)
                 start = n_ - cnt
             return Ref("scalrange", cont=v, start=sp.sympify(start), count=sp.sympify(cnt))
+        if isinstance(v, Container) and v.kind == "rows" and nm == "block" and self.dim():
+            # a 1 x DIM block of an array whose rows hold several DIM-wide slots: row r, slot col / DIM
+            dim = self.dim()
+            if len(args) == 2 and len(tints) == 2:
+                r_, c_, nr, nc = args[0], args[1], tints[0], tints[1]
+            elif len(args) == 4:
+                r_, c_, nr, nc = args
+            else:
+                r_ = None
+            if r_ is not None and sp.sympify(nr) == 1 and sp.sympify(nc) == dim and (v.slots > 1 or not is_zero(sp.sympify(c_))):
+                slot = sp.simplify(sp.sympify(c_) / dim)
+                if not slot.is_Integer:
+                    raise Unsupported("block column offset is not a multiple of DIM")
+                return Ref("row", cont=v, idx=sp.sympify(r_), slot=slot)
         if isinstance(v, Container) and v.kind == "rows":
             if nm == "middleRows":
                 start = args[0]
